@@ -88,5 +88,26 @@ def stepWorld (w : World) (ce : Nat × Ev) : World :=
 
 def runWorld (w : World) (evs : List (Nat × Ev)) : World := evs.foldl stepWorld w
 
+/-! ### a jitted function that takes the lazy inverse as an argument
+
+`InverseOperator.config` is a static field: it is part of the key under which `jax.jit` caches a trace, compared
+with `ConfigState.__eq__`.  `keyOf` is what that comparison can see of a configuration; the implementation's is
+the identity (the generated dataclass `__eq__` compares all four settings — checked on the implementation by the
+harness for every pair of configurations it observes).  A cache entry records the configuration the trace was
+made with. -/
+
+/-- apply through the shared jitted function: on a hit the stored trace is reused, on a miss the inverse is
+traced with its own captured configuration; returns the configuration the solve really runs with -/
+def applyJit {κ : Type} [DecidableEq κ] (keyOf : Cfg → κ) (cache : List (κ × Cfg)) (captured : Cfg) :
+    List (κ × Cfg) × Cfg :=
+  match cache.lookup (keyOf captured) with
+  | some used => (cache, used)
+  | none => ((keyOf captured, captured) :: cache, captured)
+
+/-- a sequence of applications of inverses (given by their captured configurations) through one jitted function -/
+def runJit {κ : Type} [DecidableEq κ] (keyOf : Cfg → κ) : List (κ × Cfg) → List Cfg → List Cfg
+  | _, [] => []
+  | cache, c :: cs => (applyJit keyOf cache c).2 :: runJit keyOf (applyJit keyOf cache c).1 cs
+
 end Config
 end Furax
